@@ -92,13 +92,55 @@ def plans_differ(tier):
   return out
 
 
+NULL_PROBES = [
+  ('repeated_variable_null', 'T(1); T(null); T(3);\nP(u, u) :- T(u);\nQ(a) :- P(a, a);', 'P', 'Q'),
+  ('null_passthrough', 'T(1); T(null);\nP(u) :- T(u);\nQ(a) :- P(a);', 'P', 'Q'),
+  ('null_in_arith', 'T(1); T(null);\nP(u, u + 1) :- T(u);\nQ(a, b) :- P(a, b);', 'P', 'Q'),
+  ('null_compared', 'T(1); T(null); T(2);\nP(u) :- T(u), u > 1;\nQ(a) :- P(a);', 'P', 'Q'),
+]
+
+
+def null_probes(tier):
+  """Fact tables containing null: the rows of Q must be the same under every plan of P."""
+  from common import sqlite3_logica
+  out = {'name': 'C08-null-probes', 'evaluations': 0, 'distinct_nontrivial': 0, 'violations': [], 'samples': [],
+         'rule': '%d programs over fact tables containing null x {default, @NoInject, @With, @NoWith+@NoInject} on the '
+                 'intermediate predicate: equal multisets of rows' % len(NULL_PROBES)}
+  for name, body, inter, main in NULL_PROBES:
+    rows = {}
+    for a in ('', '@NoInject(%s);', '@With(%s);', '@NoWith(%s);\n@NoInject(%s);'):
+      t = lgen.E + a.replace('%s', inter) + '\n' + body
+      try:
+        prog = R.compile_program(t)
+        pre, sql = R.statements_for(prog, main)
+        con = sqlite3_logica.SqliteConnect()
+        for st in pre:
+          con.execute(st)
+        rows[a or 'default'] = sorted(con.execute(sql).fetchall(), key=repr)
+      except Exception as e:
+        rows[a or 'default'] = '%s: %s' % (type(e).__name__, str(e)[:100])
+      out['evaluations'] += 1
+    out['distinct_nontrivial'] += 1
+    if len({repr(v) for v in rows.values()}) > 1:
+      out['violations'].append({'key': 'C08-null-probes/%s' % name,
+                                'replay': {'obligation': 'C08-null-probes/%s' % name,
+                                           'clause': 'rows of %s are the same under every plan annotation of %s' % (main, inter),
+                                           'solver': 'bounded back end (real compiler + SQLite)',
+                                           'input': {'program': body, 'rows_per_plan': {k: repr(v) for k, v in rows.items()}},
+                                           'native': {'case': {'program': body}, 'clause': 'plan invariance',
+                                                      'detail': 'rows differ between plans: %r' % rows}}})
+  if NULL_PROBES:
+    out['samples'].append({'program': NULL_PROBES[1][1]})
+  return out
+
+
 def run(tier, seed):
   vs = variant_schemas(tier, seed)
   r = schemas.run_schemas(vs, tier, seed, 'C08-annotations')
   r['rule'] = ('every catalogue schema x assignments of {none, @NoInject, @With, @NoWith, @Ground, @NoWith+@NoInject} to its '
                'concrete intermediate predicates (exhaustive for one, sampled for more): same spec comprehension on '
                'the sampled databases (%d annotated programs)' % len(vs))
-  return [r, plans_differ(tier)] + _std.std_run('C08', tier, seed, schemas_tag=False)
+  return [r, plans_differ(tier), null_probes(tier)] + _std.std_run('C08', tier, seed, schemas_tag=False)
 
 
 def replay(spec):
